@@ -968,11 +968,20 @@ class Run:
         return "%d!~" % b["label"]
 
     def _ancestors(self, n):
-        seen = []
-        while n is not None and n not in seen:
-            seen.append(n)
-            ok, p = OS.loaded(n, "parent")
-            n = p if ok else n.parent
+        """ancestors through the current parent links and through links removed since the last flush: the unit of work orders a row
+        after its old *and* its new parent, so reversing an edge within one flush is the documented 'mutually dependent rows' case
+        (CircularDependencyError unless post_update is configured) - not generated"""
+        seen, todo = [], [n]
+        insp = self.m["inspect"]
+        while todo:
+            x = todo.pop()
+            if x is None or any(x is y for y in seen):
+                continue
+            seen.append(x)
+            ok, p = OS.loaded(x, "parent")
+            todo.append(p if ok else x.parent)
+            if OS.state_of(x) in ("persistent", "pending"):
+                todo.extend(y for y in (insp(x).attrs["parent"].history.deleted or ()) if y is not None)
         return seen
 
     def op_node_parent(self, a1, a2):
@@ -1288,6 +1297,10 @@ class Run:
                 self.by_id[id(o)]["retired"] = True
             what = "setdefault"
         elif how == 9 and key is not None:
+            ent = self.by_id.get(id(d[key]))
+            if ent is not None:       # (same bookkeeping as op_set: was the previous value known when the attribute was set)
+                self.loaded_before_set.setdefault((ent["label"], "val"), OS.loaded(d[key], "val")[0] or
+                                                  OS.state_of(d[key]) in ("transient", "pending"))
             d[key].val = a2          # change of a member's column
             what = "[%s].val" % key
         elif how == 10 and key is not None:
